@@ -216,6 +216,17 @@ def gen_items(rng, tier):
             continue
         n += 1
         items.append(dict(it, cert=n % 2, stream="multi-function-random"))
+    # strengthening round 3: a loop as the brace-less body of every chain position, followed by loops of every kind
+    items += G.braceless_items(rng, quick, bodies=G.BL_LOOP_BODIES,
+                               follows=["none", "for", "while", "dowhile", "for_or", "blloop", "say", "blchain"],
+                               stream="braceless-loop-matrix")
+    n = 0
+    while n < (120 if quick else 1500):
+        p = G.mark_braceless(rng, G.random_program(rng, depth=rng.choice([2, 3, 3]), loops=True, braceless_loops=True), 0.75)
+        if not G.count_braceless(p) or not any(k.startswith(("while_", "dowhile_", "for_")) for k in G.shape_tags(p)):
+            continue
+        n += 1
+        items.append(dict(prog=p, cert=n % 2, stream="random-nested-braceless"))
     return items
 
 
@@ -297,11 +308,16 @@ def main(tier: str) -> int:
              "directly nested loops whose conditions share __logic__0; empty bodies.  Round 2: 14 rich condition shapes x 5 ways of combining them with the "
              "counter test (guard && F, F && guard, guard distributed into the alternatives, guard || F with a body that falsifies F, !(!guard || !F)) x "
              "loop kind x bounds x bodies (say / clears a tested variable / chain over the same variables); random formulas in nested loops; packs of "
-             "several functions whose loops call each other.  Every case contains a loop, so distinct_nontrivial = distinct sources",
+             "several functions whose loops call each other.  Round 3: a loop (for / while, plain and || conditions, for holding a chain) as the BRACE-LESS body of "
+             "every chain position (lone if, first with else, else, last else-if, else-if before else, middle, last of 3, else of 3, all bodies brace-less), "
+             "followed in the same block by nothing / for / while / do-while / for with || / another brace-less else-if loop + loop / say / brace-less chain, "
+             "inside a function, loop body or branch; `for` counters take part in the enumeration of initial states (stale value makes the test true while the "
+             "branch is not taken); random nests with brace-less bodies.  Every case contains a loop, so distinct_nontrivial = distinct sources",
         correspondence="text of the user function and of every private function == Model (compile_body), compared in Coq",
         disagreements_checked=len(st["bad"]), semantic_runs=st["n_runs"], semantic_runs_skipped_divergent=st["n_skipped"],
         semantic_failures=len(st["sem_fail"]), compile_errors_expected_by_model=st["n_errors"],
         branch_histogram=st["tags"], streams=st["streams"], max_source_iterations_histogram=st["iters_hist"],
+        braceless_bodies=sum(G.count_braceless(it["prog"]) for it in items),
         search="every case: emitted functions run in mcvm (step and depth limits) from every 0/1 assignment of the variables read "
                "(<=48 states, sampled beyond; thorough: also unset); say-trace and final user scores compared with the JavaScript meaning; "
                "source runs exceeding 400 iterations are skipped as divergent",
